@@ -1,7 +1,7 @@
 (* Properties/C10.v — a schema received from a plugin is rejected with an error or fully usable.
    Statements only; proofs in Proofs/C10Total.v (the loader is total), Proofs/C10Shape.v (what holds of its
    result by construction), Proofs/C10UseNoPanic.v / C10UseTerm.v (C04's totality under the part of
-   well-formedness that is used) and Proofs/C10Usable.v (the composition).  Model: Schema/Describe.v
+   well-formedness that is used, assembled in C10UseMain.v) and Proofs/C10Usable.v, C10UsableExt.v (the composition).  Model: Schema/Describe.v
    (`rebuild` = UnserializeScope, `rebuild_plugin` = UnserializeSchema / Client.ReadSchema, as they are after
    the fixes for D30, D31, D32, D40), tied to the SDK by the family c10mutants on every run.
 
@@ -15,10 +15,13 @@
    is not needed (C10_wf_relation: wf_schema <-> wf_use /\ ids_ok; no operation reads an object's id).
    The two known-finding classes of C04 (D11 no_inline_cycle, D50 defaults_total) are reachable through the
    loader (C10_inline_cycle_refuted, C10_default_cycle_refuted), so they stay as hypotheses of the
-   termination half; the no-panic half has none. *)
+   termination half; the no-panic half has none.
+   Part 3 (C10_usable_applied_namespaces): UnserializeScope returns references into other namespaces unlinked
+   (and does not check a one-of member that is such a reference); once the caller has applied those namespaces
+   (the `e_ext` of the environment) the scope is fully usable in the same sense. *)
 From Verif Require Import Base.Prelude Base.Str Base.Float Base.GoVal
   Schema.Regex Schema.Units Schema.Syntax Schema.Ops Schema.Wf Schema.Total Schema.Describe
-  Proofs.C04Refuted Proofs.C10Total Proofs.C10Shape Proofs.C10UseNoPanic Proofs.C10Usable.
+  Proofs.C04Refuted Proofs.C10Total Proofs.C10Shape Proofs.C10UseNoPanic Proofs.C10UseMain Proofs.C10Usable Proofs.C10UsableExt.
 Open Scope string_scope.
 
 (* UnserializeScope: for EVERY decoded value, with every behaviour of the recorded libraries
@@ -255,3 +258,56 @@ Theorem C10_wf_schema_not_established :
             wf_schema (mkEnv [] [] jor) s = false /\ wf_use (mkEnv [] [] jor) s = true.
 Proof. exact wf_schema_too_strong_for_rebuilt. Qed.
 Print Assumptions C10_wf_schema_not_established.
+
+(* ================= Part 3: UnserializeScope, then the caller's namespaces ================= *)
+
+(* `ext`: the namespaces the caller has applied (ScopeSchema.ApplyNamespace), each a table of objects.
+   all_env use_local: those tables are themselves usable.  all_nodes ext_ok: every reference of s into another
+   namespace resolves in ext to an object, and where it is a one-of member it passes the member check that
+   ApplyNamespace performs when the namespace is applied (the loader could not check it, C10_foreign_member_accepted).
+   With ext = [] and no foreign reference this is C10_usable. *)
+Theorem C10_usable_applied_namespaces :
+  forall (words : list (string * bool)) (pu : units -> string -> option fl) (cu : units)
+         (rp : string -> option re) (jor : oracles) (d : gval) (s : schema) (ext : list (string * objtab)),
+  rebuild words pu cu rp jor d = Ok s ->
+  all_env use_local (mkEnv [] ext jor) = true -> all_nodes ext_ok (mkEnv [] ext jor) s = true ->
+  (forall (f : nat) (v : gval) (w : string),
+     unser words pu f (mkEnv [] ext jor) s v <> Panic w /\ validate words pu f (mkEnv [] ext jor) s v <> Panic w /\
+     serialize words pu f (mkEnv [] ext jor) s v <> Panic w /\ compat words pu f (mkEnv [] ext jor) s v <> Panic w)
+  /\
+  (forall K : nat, no_inline_cycle (mkEnv [] ext jor) s = true -> defaults_total words pu K (mkEnv [] ext jor) s = true ->
+     forall (v : gval) (f : nat), (fuel_bound K (mkEnv [] ext jor) s v <= f)%nat ->
+       unser words pu f (mkEnv [] ext jor) s v <> OutOfFuel /\ validate words pu f (mkEnv [] ext jor) s v <> OutOfFuel /\
+       serialize words pu f (mkEnv [] ext jor) s v <> OutOfFuel /\ compat words pu f (mkEnv [] ext jor) s v <> OutOfFuel).
+Proof. exact c10_usable_ext. Qed.
+Print Assumptions C10_usable_applied_namespaces.
+
+(* the scope of C10_scope_foreign_ref_refuted, and a one-of with a member in another namespace: accepted by
+   UnserializeScope, and with the namespace applied every hypothesis holds and values are accepted *)
+Example C10_applied_namespaces_satisfiable :
+  forallb (fun dv : gval * gval =>
+             match rebuild x_words x_pu x_cu x_rp x_jor (fst dv) with
+             | Ok s =>
+                 foreign_refs s
+                 && all_env use_local (mkEnv [] u_other_ns x_jor) && all_nodes ext_ok (mkEnv [] u_other_ns x_jor) s
+                 && no_inline_cycle (mkEnv [] u_other_ns x_jor) s
+                 && defaults_total x_words x_pu 20 (mkEnv [] u_other_ns x_jor) s
+                 && is_ok (unser x_words x_pu (fuel_bound 20 (mkEnv [] u_other_ns x_jor) s (snd dv))
+                                 (mkEnv [] u_other_ns x_jor) s (snd dv))
+             | _ => false
+             end)
+          [(u_foreign, VMap t_str_map false [(vstr "x", VMap t_str_map false [(vstr "n", vi64 1)])]);
+           (u_foreign_member,
+            VMap t_str_map false [(vstr "x", VMap t_str_map false [(vstr "kind", vstr "b"); (vstr "n", vi64 1)])])] = true.
+Proof. vm_compute. reflexivity. Qed.
+
+(* the loader does not (cannot) check a one-of member whose namespace is not applied: the same one-of is accepted
+   although, once "other" is applied, member "b" declares the discriminator field of a one-of that is not inlined *)
+Theorem C10_foreign_member_accepted :
+  forall (words : list (string * bool)) (pu : units -> string -> option fl) (cu : units) (rp : string -> option re)
+         (jor : oracles),
+  exists s, rebuild words pu cu rp jor u_foreign_member = Ok s /\ c10_wf jor s = true /\
+            all_nodes ext_ok (mkEnv [] u_other_ns_bad jor) s = false /\
+            all_nodes ext_ok (mkEnv [] u_other_ns jor) s = true.
+Proof. exact c10_foreign_member_accepted. Qed.
+Print Assumptions C10_foreign_member_accepted.
